@@ -150,7 +150,7 @@ class HostKeyTest:
                         # Parse the server's KEX.
                         _, payload = s.read_packet()
                         SSH2_Kex.parse(out, payload)
-                    except Exception:
+                    except (Exception, SystemExit):  # The packet reader ends in sys.exit() on inconsistent framing; on a probe connection that must not take the whole audit (and the report of the completed handshake) down.
                         msg = "Failed to parse server's kex."
                         if not out.debug:
                             msg += "  Re-run in debug mode to see stack trace."
